@@ -68,6 +68,7 @@ type undoRec struct {
 
 // Worker owns one interpreter state and one solver process.
 type Worker struct {
+	curFn *ssa.Function // function of the frame being executed (debug output only)
 	id     int
 	prog   *Program
 	ex     *Explorer
@@ -683,6 +684,7 @@ func (w *Worker) runFrame(fr *frame) {
 		}
 	}()
 
+	w.curFn = fr.fn
 	var cnt *int64
 	if c, ok := w.fcount[fr.fi]; ok {
 		cnt = c
@@ -903,6 +905,54 @@ func (w *Worker) checkIndex(idx value, idxType types.Type, n int, what string) i
 		panic(targetPanic{w.runtimeError(fmt.Sprintf("index out of range [%d] with length %d", i, n))})
 	}
 	return int(i)
+}
+
+// loadOnlyInBlock reports whether the element address computed by instr is used only by loads in
+// instr's own block (so no store can intervene between computing the address and reading through it).
+func loadOnlyInBlock(instr *ssa.IndexAddr) bool {
+	refs := instr.Referrers()
+	if refs == nil || len(*refs) == 0 {
+		return false
+	}
+	for _, r := range *refs {
+		u, ok := r.(*ssa.UnOp)
+		if !ok || u.Op != token.MUL || u.Block() != instr.Block() {
+			return false
+		}
+	}
+	// no store between the address computation and the last load
+	seen := false
+	for _, in := range instr.Block().Instrs {
+		if in == ssa.Instruction(instr) {
+			seen = true
+			continue
+		}
+		if !seen {
+			continue
+		}
+		switch in.(type) {
+		case *ssa.Store, *ssa.Call, *ssa.MapUpdate, *ssa.Send, *ssa.Go, *ssa.Defer:
+			// a store (or anything that may store) after the address was taken: only safe once every load is behind us
+			for _, r := range *refs {
+				if !before(instr.Block(), r.(*ssa.UnOp), in) {
+					return false
+				}
+			}
+		}
+	}
+	return true
+}
+
+func before(b *ssa.BasicBlock, a, c ssa.Instruction) bool {
+	for _, in := range b.Instrs {
+		if in == a {
+			return true
+		}
+		if in == c {
+			return false
+		}
+	}
+	return false
 }
 
 // indexInRange is the bounds obligation 0 <= t < n for an index term of t's own width.  When n does
@@ -1214,6 +1264,30 @@ func (w *Worker) visitInstr(fr *frame, instr ssa.Instruction) continuation {
 	case *ssa.IndexAddr:
 		x := fr.get(instr.X)
 		idx := fr.get(instr.Index)
+		if _, sym := idx.(*Term); sym && loadOnlyInBlock(instr) {
+			// table[symbolic index] read through an element address that is only loaded from, in this
+			// block: read the element as an ite over the table instead of forking over every index
+			var elems []value
+			switch x := x.(type) {
+			case []value:
+				elems = x
+			case *value:
+				if x == nil {
+					w.nilDeref()
+				}
+				if a, ok := (*x).(array); ok {
+					elems = []value(a)
+				}
+			}
+			if elems != nil && len(elems) <= 256 {
+				elemType := instr.Type().Underlying().(*types.Pointer).Elem()
+				if _, _, isInt := intInfo(elemType); isInt {
+					cell := w.indexRead(elems, idx, instr.Index.Type(), elemType)
+					fr.set(instr, &cell)
+					break
+				}
+			}
+		}
 		switch x := x.(type) {
 		case []value:
 			i := w.checkIndex(idx, instr.Index.Type(), len(x), "slice")
